@@ -74,9 +74,7 @@ class Cert(A.Assembler):
                 cur.setdefault(bank, 0)
                 self.layout[idx] = {"bank": bank, "pos": cur[bank], "size": 0}
                 continue
-            if kind in ("label", "const") and b.get("labelalign") and it[2] == 0:
-                if kind == "const":
-                    raise A.Unsupported("global constant inside a labelalign bank")
+            if kind == "label" and b.get("labelalign") and it[2] == 0:
                 absbits = b["addr"] * b["unit"] + cur[bank]
                 la = b["labelalign"]
                 if absbits % la:
